@@ -6,6 +6,7 @@ for p in ${SEED_PROPS:-C01 C02 C03 C04 C05 C06 C07 C08 C09 C10 C11 C12 C13 C14 C
     d=${p}_$k
     src=/tmp/wt_$p/OUT/$d
     [ -d "$src" ] || src=/tmp/wt2_$p/OUT/$d
+    [ -d "$src" ] || src=/tmp/wt3_$p/OUT/$d
     [ -d "$src" ] || src=/verif/seeded/$d
     [ -f "$src/patch.diff" ] || continue
     timeout 1800 tools/seed_eval.py $src $d $p 2>&1 | tail -1 | cut -c1-300
